@@ -30,6 +30,7 @@ type fakeDriver struct {
 	opened, closed int64
 	mu             sync.Mutex
 	conns          map[*fakeConn]bool
+	markers        map[string]bool
 }
 
 // Busy lists the connections database/sql has handed out and not taken back (IsValid is
@@ -163,6 +164,18 @@ type fakeStmt struct {
 func (s *fakeStmt) Close() error  { return nil }
 func (s *fakeStmt) NumInput() int { return -1 }
 func (s *fakeStmt) Exec(args []driver.Value) (driver.Result, error) {
+	// the one piece of state: a "global finished" marker row written by a phase-two rollback that
+	// found no undo log; a later (duplicate, retried) rollback of the same branch reads it back
+	if s.c != nil && len(args) >= 5 && strings.Contains(strings.ToUpper(s.q), "INSERT INTO UNDO_LOG") {
+		if st, ok := args[4].(int64); ok && st == 1 {
+			s.c.d.mu.Lock()
+			if s.c.d.markers == nil {
+				s.c.d.markers = map[string]bool{}
+			}
+			s.c.d.markers[fmt.Sprint(args[0])] = true
+			s.c.d.mu.Unlock()
+		}
+	}
 	return fakeResult{}, nil
 }
 
@@ -214,8 +227,17 @@ func (s *fakeStmt) Query(args []driver.Value) (driver.Rows, error) {
 	case strings.Contains(q, "VERSION()"):
 		return &fakeRows{cols: []string{"VERSION()"}, data: [][]driver.Value{{"5.7.30"}}}, nil
 	case strings.Contains(q, "UNDO_LOG"):
+		cols := []string{"branch_id", "xid", "context", "rollback_info", "log_status"}
+		if s.c != nil && len(args) >= 2 {
+			s.c.d.mu.Lock()
+			marked := s.c.d.markers[fmt.Sprint(args[0])]
+			s.c.d.mu.Unlock()
+			if marked { // a rollback of this branch was already answered: its marker row
+				return &fakeRows{cols: cols, data: [][]driver.Value{{args[0], args[1], []byte("serializerKey=json"), []byte("{}"), int64(1)}}}, nil
+			}
+		}
 		// no undo row: phase-two rollback of an unknown branch
-		return &fakeRows{cols: []string{"branch_id", "xid", "context", "rollback_info", "log_status"}}, nil
+		return &fakeRows{cols: cols}, nil
 	}
 	m := reSelectList.FindStringSubmatch(s.q)
 	if m == nil {
